@@ -134,6 +134,17 @@ pub fn run(ctx: &Ctx) {
         let evs = run_plain(&mut rx, &samples);
         let op = format!("rx.full {} {}", cfg_tokens(&b), path.display());
         out.op(&op, &show_events(&evs), true);
+        // the same audio with a `reset()` somewhere in the middle (any phase: idle, preamble, mid-burst, pending)
+        if i % 2 == 0 {
+            let k = rng.below(samples.len() as u64) as usize;
+            let mut rx = b.build();
+            let e1 = run_plain(&mut rx, &samples[..k]);
+            rx.reset();
+            let e2 = run_plain(&mut rx, &samples[k..]);
+            let op = format!("rx.fullreset {} {} {}", cfg_tokens(&b), k, path.display());
+            out.op(&op, &format!("{} || {}", show_events(&e1), show_events(&e2)), true);
+            out.count("with_reset");
+        }
         out.count(&format!("rate:{}", rate));
         out.count(&format!("config_kind:{}", ["default", "samedec_limits", "no_dc_no_equalizer", "varied_equalizer_timing_squelch", "samedec_limits+hostile_tail", "varied_agc_dc"][kind]));
         out.count_n("samples", samples.len() as u64);
